@@ -140,27 +140,34 @@ def _corrupt(events, how, ctx):
 
 def run(ctx):
     q = ctx.quick
-    # ---- 1. design level
-    r = ctx.tlc("NtsCookiesMC", "NtsCookies_exh.cfg" if q else "NtsCookies_deep.cfg", timeout=240 if q else 1500)
-    ctx.log("TLC repaired design (%s): %d distinct states, %d generated, %.0fs" %
-            (r["cfg"], r["distinct"], r["generated"], r["wall_s"]))
-    rf = ctx.tlc("NtsCookiesMC", "NtsCookies_faithful.cfg", timeout=240, tag="faithful")
-    pred = _emitted_any(rf["out"], "PREDICT")
-    pred = pred[0] if pred else {}
-    ctx.log("TLC pinned constants: %d distinct states; predicted: request does not fit at pool levels %s "
-            "(panic at %s), reply does not fit for %s requested cookies, MaxFit=%s" %
-            (rf["distinct"], pred.get("req"), pred.get("panic"), pred.get("resp"), pred.get("maxfit")))
-    rp = ctx.tlc("NtsCookiesMC", "NtsCookies_predict.cfg", timeout=120, allow_violation=True, tag="predict") \
-        if not q else dict(violated=None)
-    if rp["violated"] == "ReqFits":
-        sends = len(re.findall(r'^/\\ obs = "fail"\s*$', rp["out"], re.M))
-        ctx.log("TLC counterexample to ReqFits on the pinned constants: %d exchanges fail, the next request panics" % sends)
-        ctx.notes.append("spec-level prediction (pinned constants): ReqFits fails after %d consecutive failed exchanges" % sends)
-    elif rp["violated"]:
-        raise vlib.Inconclusive("unexpected violation %s in NtsCookies_predict.cfg" % rp["violated"])
+    # ---- 1. design level (runs next to the schedule generation and the driver; joined below)
+    ctx.specdir()
+    bg = ThreadPoolExecutor(max_workers=1)
+
+    def design():
+        r = ctx.tlc("NtsCookiesMC", "NtsCookies_exh.cfg" if q else "NtsCookies_deep.cfg", timeout=300 if q else 1500)
+        ctx.log("TLC repaired design (%s): %d distinct states, %d generated, %.0fs" %
+                (r["cfg"], r["distinct"], r["generated"], r["wall_s"]))
+        rf = ctx.tlc("NtsCookiesMC", "NtsCookies_faithful.cfg", timeout=300, tag="faithful")
+        pred = _emitted_any(rf["out"], "PREDICT")
+        pred = pred[0] if pred else {}
+        ctx.log("TLC pinned constants: %d distinct states; predicted: request does not fit at pool levels %s "
+                "(panic at %s), reply does not fit for %s requested cookies, MaxFit=%s" %
+                (rf["distinct"], pred.get("req"), pred.get("panic"), pred.get("resp"), pred.get("maxfit")))
+        if q:
+            return pred
+        rp = ctx.tlc("NtsCookiesMC", "NtsCookies_predict.cfg", timeout=120, allow_violation=True, tag="predict")
+        if rp["violated"] == "ReqFits":
+            fails = len(re.findall(r'^/\\ obs = "fail"\s*$', rp["out"], re.M))
+            ctx.log("TLC counterexample to ReqFits on the pinned constants: %d exchanges fail, the next request panics" % fails)
+            ctx.notes.append("spec-level prediction (pinned constants): ReqFits fails after %d consecutive failed exchanges" % fails)
+        elif rp["violated"]:
+            raise vlib.Inconclusive("unexpected violation %s in NtsCookies_predict.cfg" % rp["violated"])
+        return pred
+    design_f = bg.submit(design)
 
     # ---- 2. schedules from the specification
-    num = 150 if q else 1600
+    num = 150 if q else 1000
     g = ctx.tlc("NtsCookiesGen", "NtsCookies_gen.cfg" if q else "NtsCookies_gendeep.cfg", workers=1, timeout=600,
                 simulate="num=%d" % num, depth=400, tag="gen")
     beh = ctx.emitted(g["out"])
@@ -180,7 +187,7 @@ def run(ctx):
 
     # ---- 3. the real code
     tp, out = ctx.godriver("c11", "TestC11", cases=cp, timeout=420 if q else 1500,
-                           env={"VERIF_C11_LANES": os.environ.get("VERIF_C11_LANES", "24")})
+                           env={"VERIF_C11_LANES": os.environ.get("VERIF_C11_LANES", "24" if q else "40")})
     events = vlib.read_ndjson(tp)
     cfg, events = events[0], events[1:]
     if cfg.get("ev") != "cfg":
@@ -205,6 +212,9 @@ def run(ctx):
                 rotated_replies=rotated, requests_under_retired_key=retired)
     ctx.log("coverage: %s; live pool levels %s, function-level pool levels %s, behaviours with re-keying %d, "
             "panics %d, probe sizes %s" % (need, levels_live, levels_fn, rekeys2, cnt["panic"], probes))
+    pred = design_f.result()   # raises Inconclusive if a design-level run failed
+    bg.shutdown()
+
     # ---- 4. code -> spec
     nval, nviol_beh = 0, 0
     found = {}       # signature -> (what, replay)
